@@ -107,10 +107,10 @@ func (m *Matcher) Loop() {
 				}
 			} else {
 				// Invalidate mergerCache
-				prevCount = count
 				m.mergerCache = make(map[string]*Merger)
 			}
 		}
+		prevCount = count
 
 		if merger == nil {
 			merger, cancelled = m.scan(request)
